@@ -8,6 +8,7 @@ import vf
 
 PROP = 'C16'
 CFG = {'quick': 'gen/MC_C16_q.cfg', 'thorough': 'gen/MC_C16_t.cfg'}
+NA = {'quick': 'gen/MC_C16na_q.cfg', 'thorough': 'gen/MC_C16na_t.cfg'}      # the same universe over the member names z and e-acute
 
 
 def sig(r):
@@ -22,6 +23,7 @@ def sig(r):
 def setup():
     vf.build('c16', ['c16.cpp'])
     vf.tlc_gen('gen/MC_C16', CFG['quick'], timeout=1200)
+    vf.tlc_gen('gen/MC_C16', NA['quick'], timeout=1200)
 
 
 def run(tier):
@@ -30,6 +32,9 @@ def run(tier):
     g = vf.tlc_gen('gen/MC_C16', CFG[tier], timeout=2400)
     rep.add_tlc(g[1])
     recs = vf.run_shards(binary, g[0])
+    g2 = vf.tlc_gen('gen/MC_C16', NA[tier], timeout=2400)
+    rep.add_tlc(g2[1])
+    recs += vf.run_shards(binary, g2[0])
     traces = [r for r in recs if r.get('k') == 'trace']
     others = [r for r in recs if r.get('k') != 'trace']
     # G part (reuse the generic triage on the non-trace records)
@@ -51,7 +56,7 @@ def run(tier):
     cov['distinct_nontrivial'] = totals.get('cases', 0)
     cov['exhaustive'] = True
     cov['rule'] = ('all ordered pairs (target, patch) = (source, target) of the document universe L2 of spec/gen/MC_C16.tla (scalars null,true,1,"s"; '
-                   'objects over keys a,b; arrays up to length 1; nesting depth 2), json and ojson; each pair is one distinct case; '
+                   'objects over keys a,b - and the same universe over the keys z, e-acute (an ASCII / non-ASCII pair) -; arrays up to length 1; nesting depth 2), json and ojson; each pair is one distinct case; '
                    'the diff law is checked on the pairs whose target has no null member anywhere')
     cov['bounds'] = open(os.path.join(vf.SPEC, CFG[tier])).read().split('CONSTANTS')[1].split()
     cov['samples'] = vf.sample_lines(g[0], 2) + lines[:1]
